@@ -452,3 +452,29 @@ for _nm in ('Sm', 'Stau', 'Sb', 'St'):
 from contracts.shared import reregister as _rr_c07
 _rr_c07('C07', 'C04', 'C04.spectrum.solver_input.Cha', 'C07.callee.solver_input.Cha')
 _rr_c07('C07', 'C04', 'C04.spectrum.solver_input.Chi', 'C07.callee.solver_input.Chi')
+
+# the remaining 1x1 sectors (not tachyon-monitored): the stored mass is sqrt(|m^2|) >= 0 on every path, no flag is raised
+def make_scalar_sector(nm, field):
+    @obligation('C04.scalar_sector.%s' % nm, fns=[(ME, CLS + '::calculate_M' + nm)])
+    def ob(ctx, nm=nm, field=field):
+        """ensures for ANY value m2 of the 1x1 mass matrix: the stored mass M satisfies M >= 0 and M^2 == |m2|; no tachyon flag (this sector is not monitored)"""
+        x = ctx.real('m2')
+        flagged = []
+        it = Interp(ctx.w, mode='sym')
+        it.stubs.update({CLS + '::get_mass_matrix_' + nm: lambda i, ar, t: x, '::flag_tachyon': lambda i, ar, t: flagged.append(ar[0])})
+        m = it.new_object('MSSMNoFV_onshell')
+        def run():
+            del flagged[:]
+            it.call('calculate_M' + nm, [], this=m)
+            return (m.f[field], list(flagged))
+        paths = it.run_paths(run)
+        ctx.merge_rules(it)
+        for k, (sym, (ms, fl), exc) in enumerate(paths):
+            ctx.prove('path%d.mass' % k, sym.pc + sym.axioms, z3.And(z3real(ms) >= 0, z3real(ms) * z3real(ms) == absz(x)), check_vacuity=False, tactics=('nlsat', 'default'),
+                      pins=[{'m2': -2165}, {'m2': 2165}, {'m2': 0}])
+            ctx.record('path%d.no_flag' % k, PROVED if not fl else FAILED, 'B', 0, 'flags: %s' % (fl,))
+        ctx.record('paths', PROVED if paths else ERROR, 'B', 0, '%d path(s)' % len(paths))
+    return ob
+
+for _nm, _field in (('SveL', 'MSveL'), ('SvtL', 'MSvtL'), ('VZ', 'MVZ'), ('VWm', 'MVWm')):
+    make_scalar_sector(_nm, _field)
